@@ -48,7 +48,8 @@ class Adapter:
         for n in cfg["tools"]:
             for s in subsets:
                 acts.append(dict(z, op="register", n=n, req=s))
-            acts += [dict(z, op="metabolize", n=n, mode="auto"), dict(z, op="metabolize", n=n, mode="forced"), dict(z, op="tool_call", n=n)]
+            acts += [dict(z, op="metabolize", n=n, mode=m) for m in ("auto", "forced", "arith", "inner")] + [dict(z, op="tool_call", n=n)]
+            acts += [dict(z, op="metabolize", n=n, n2=n2, mode="nested") for n2 in cfg["tools"]]
             for n2 in cfg["tools"] + [NONE]:
                 acts.append(dict(z, op="tool_loop", n=n, n2=n2))
         acts.append(dict(z, op="repair"))
@@ -101,8 +102,12 @@ class Adapter:
                     else:
                         m.register_function(n, body(n), "tool " + n, required_capabilities=req)
                 elif op == "metabolize":
-                    r = m.metabolize("%s(1)" % n, self.mito.MetabolicPathway.OXIDATIVE if a["mode"] == "forced" else None)
+                    expr = {"auto": "%s(1)" % n, "forced": "%s(1)" % n, "arith": "1 + %s(1)" % n, "inner": "abs(%s(1))" % n,
+                            "nested": "%s(%s(1))" % (n, a["n2"])}[a["mode"]]
+                    r = m.metabolize(expr, self.mito.MetabolicPathway.OXIDATIVE if a["mode"] == "forced" else None)
                     obs["ok"] = bool(r.success)
+                    if a["mode"] == "nested":
+                        obs["ok2"] = bool(r.success)
                 elif op == "tool_call":
                     r = m.execute_tool_call(self.prov.ToolCall(id="c1", name=n, arguments={"x": 1}))
                     obs["ok"] = bool(r.success)
@@ -208,14 +213,14 @@ def run(tier):
         R.add_tlc("MC_Capabilities allowed=%s unrestricted=%s" % (c["allowed"], c["unrestricted"]), r)
         if r["violated"]:
             raise base.MachineryError("Capabilities.tla violates its own P-layer: %s\n%s" % (r["violated"], r["out"][-2000:]))
-        dead = tlc.dead_actions(r, ["Register", "Metabolize", "ToolCall", "ToolLoop", "Repair"])
+        dead = tlc.dead_actions(r, ["Register", "Metabolize", "MetabolizeNested", "ToolCall", "ToolLoop", "Repair"])
         if dead:
             raise base.MachineryError("vacuity: actions never taken: %s" % dead)
     depth = 5 if quick else 7
     with cf.ProcessPoolExecutor(max_workers=8) as ex:
         res = list(ex.map(explore_cfg, [(c, depth, base.seed()) for c in cs]))
         sres = list(ex.map(simulate_cfg, [(c, 150 if quick else 1500, 25, base.seed() + i) for i, c in enumerate(cs)]))
-    conform.settle_audit(res)
+    conform.settle_audit(res + [{"audit": None, "fails": x["fails"]} for x in sres])
     closed = True
     for x in res:
         R.cov["traces_validated_against_impl"] += x["edges"]
